@@ -48,16 +48,33 @@ def run(run):
     project = run.project
     f = project.fn(P + ".PyramidIO.update_image")
     run.note_func(f)
-    ev = sym.make_evaluator(project, P, [])
+    ev = sym.make_evaluator(project, P, [], no_inline=("tile_path", "read_image", "write_image", "update_image"))
+    ev.self_class = P + ".PyramidIO"        # private path helpers of PyramidIO are part of update_image
     r = ev.run(f.node)
     _r1(run, f)
-    lock_term = _r2_r3(run, f, r)
+    lock_term = _r2_r3(run, f, r, ev)
     _r4(run, f, r)
     _r5(run)
     _r6(run)
 
 
-def _lock_exprs(f):
+def _lock_provider(project, f, call):
+    """A project @contextmanager whose body is `with <Lock>(...): yield`: calling it in a with-statement holds that lock."""
+    if project is None:
+        return None
+    g = common.resolve_callee(project, f, call)
+    if g is None or g is f or not any((dotted(d) or "").endswith("contextmanager") for d in g.node.decorator_list):
+        return None
+    gw, gnames = _lock_exprs(g)
+    for w, ce in gw:
+        ys = [x for s_ in w.body for x in ast.walk(s_) if isinstance(x, (ast.Yield, ast.YieldFrom))]
+        outside = [x for x in own_nodes(g.node) if isinstance(x, (ast.Yield, ast.YieldFrom)) and not any(x is y for y in ys)]
+        if ys and not outside:
+            return g
+    return None
+
+
+def _lock_exprs(f, project=None):
     """(with-statements whose context is a lock, names bound to lock objects)."""
     lock_names = set()
     for n in own_nodes(f.node):
@@ -77,12 +94,14 @@ def _lock_exprs(f):
                 elif isinstance(ce, ast.Call) and isinstance(ce.func, ast.Attribute) and ce.func.attr == "acquire" \
                         and isinstance(ce.func.value, ast.Name) and ce.func.value.id in lock_names:
                     withs.append((n, ce))
+                elif isinstance(ce, ast.Call) and _lock_provider(project, f, ce) is not None:
+                    withs.append((n, ce))
     return withs, lock_names
 
 
 def _r1(run, f):
     cfg = CFG(f.node)
-    withs, lock_names = _lock_exprs(f)
+    withs, lock_names = _lock_exprs(f, run.project)
     held_struct = set()
     for w, ce in withs:
         for s in w.body:
@@ -151,9 +170,31 @@ def _r1(run, f):
                   lines=dict(read=[n.line for n in reads], yield_=[n.line for n in yields], write=[n.line for n in writes]))
 
 
-def _r2_r3(run, f, r):
-    withs, lock_names = _lock_exprs(f)
+def _r2_r3(run, f, r, ev=None):
+    withs, lock_names = _lock_exprs(f, run.project)
     ctors = [c for c in own_calls(f.node) if (dotted(c.func) or "").split(".")[-1] in LOCK_CLASSES | NOT_INTERPROCESS]
+    subst = {}
+    if not ctors:
+        # the lock may be taken through a context-manager helper: analyse the helper, with its parameters bound to the call's arguments
+        for w, ce in withs:
+            g = _lock_provider(run.project, f, ce) if isinstance(ce, ast.Call) else None
+            if g is not None:
+                run.note_func(g)
+                ctors = [c for c in own_calls(g.node) if (dotted(c.func) or "").split(".")[-1] in LOCK_CLASSES | NOT_INTERPROCESS]
+                call_ev = [e for e in r.events if e.kind in ("call", "with") and (e.node is ce or (e.kind == "with" and e.term[0] == "call"))]
+                gp = [p_ for p_ in g.params() if p_ not in ("self", "cls")]
+                evg = sym.make_evaluator(run.project, g.module.name, [], no_inline=("tile_path", "read_image", "write_image", "update_image"))
+                evg.self_class = ev.self_class if ev is not None else None
+                rg = evg.run(g.node)
+                cterm = [e for e in r.events if e.kind == "call" and e.node is ce]
+                if cterm:
+                    for p_, a_ in zip(gp, cterm[0].term[2]):
+                        subst[("sym", p_)] = a_
+                    for k_, v_ in cterm[0].term[3]:
+                        subst[("sym", k_)] = v_
+                r = rg
+                f_lock = g
+                break
     if not ctors:
         run.violated("C10.R2", f, None, "no lock object is constructed in update_image", kind="no-lock-object")
         return None
@@ -180,7 +221,7 @@ def _r2_r3(run, f, r):
     if not calls or not calls[0].term[2]:
         run.undecided("C10.R3", f, c, "cannot evaluate the lock path", kind="lock-path")
         return None
-    key = calls[0].term[2][0]
+    key = _subst(calls[0].term[2][0], subst) if subst else calls[0].term[2][0]
     pos = ("sym", f.params()[1])
     s = show(key)
     local = [a for a in atoms_of(key) if a[0] == "call" and show(a[1]).split(".")[-1] in PROCESS_LOCAL]
@@ -205,6 +246,47 @@ def _r2_r3(run, f, r):
         run.holds("C10.R3", f, c, "lock key = tile_path(pos%s) + literal: a function of the pyramid configuration and the tile only" % (
             ", format=..." if fmt_dep else ""), key=s[:160])
     return key
+
+
+def lock_key_term(project):
+    """(lock path term of PyramidIO.update_image expressed over its own parameters, position symbol, constructor event) --
+    also when the lock is taken through a context-manager helper or the path is built by a private helper method."""
+    f = project.fn(P + ".PyramidIO.update_image")
+    ev = sym.make_evaluator(project, P, [], no_inline=("tile_path", "read_image", "write_image", "update_image"))
+    ev.self_class = P + ".PyramidIO"
+    r = ev.run(f.node)
+    pos = ("sym", f.params()[1])
+    is_lock = lambda e: e.kind == "call" and show(e.term[1]).split(".")[-1] in LOCK_CLASSES | NOT_INTERPROCESS
+    locks = [e for e in r.events if is_lock(e)]
+    if locks and locks[0].term[2]:
+        return locks[0].term[2][0], pos, locks[0]
+    withs, _names = _lock_exprs(f, project)
+    for w, ce in withs:
+        g = _lock_provider(project, f, ce) if isinstance(ce, ast.Call) else None
+        if g is None:
+            continue
+        evg = sym.make_evaluator(project, g.module.name, [], no_inline=("tile_path", "read_image", "write_image", "update_image"))
+        evg.self_class = ev.self_class
+        rg = evg.run(g.node)
+        gl = [e for e in rg.events if is_lock(e)]
+        cterm = [e for e in r.events if e.kind == "call" and e.node is ce]
+        if gl and gl[0].term[2] and cterm:
+            gp = [p_ for p_ in g.params() if p_ not in ("self", "cls")]
+            m = {}
+            for p_, a_ in zip(gp, cterm[0].term[2]):
+                m[("sym", p_)] = a_
+            for k_, v_ in cterm[0].term[3]:
+                m[("sym", k_)] = v_
+            return _subst(gl[0].term[2][0], m), pos, gl[0]
+    return None, pos, None
+
+
+def _subst(t, m):
+    if t in m:
+        return m[t]
+    if isinstance(t, tuple):
+        return tuple(_subst(x, m) if isinstance(x, tuple) else x for x in t)
+    return t
 
 
 def _r4(run, f, r):
